@@ -56,7 +56,7 @@ impl Prop for C17 {
         "C17"
     }
     fn rule(&self) -> String {
-        "enumerated: all 2^24 three-byte prefixes on a default context (both tiers). generated: random prefixes (b1 = 0x0F half of the time) with random continuations of 0-600 bytes on random contexts after random histories, compared with the prefix alone; inputs of length 0-2. oracle: b1 = 0x0F => Ok(b2 + 4), else Err with message type Invalid; equal results for equal prefixes regardless of tail and context; length < 3 => Err (no panic, no Ok). non-trivial = b1 = 0x0F (the accepting branch) or a non-empty tail / short input; enumerated cases are distinct by construction, generated ones by hash".into()
+        "enumerated: all 2^24 three-byte prefixes on a default context (both tiers). generated: random prefixes (b1 = 0x0F half of the time) with random continuations of 0-600 bytes on random contexts after random histories, compared with the prefix alone; complete reference-encoded frames whose SMBus command code is replaced (PEC repaired); inputs of length 0-2. oracle: b1 = 0x0F => Ok(b2 + 4), else Err with message type Invalid; equal results for equal prefixes regardless of tail and context; length < 3 => Err (no panic, no Ok). non-trivial = b1 = 0x0F (the accepting branch) or a non-empty tail / short input; enumerated cases are distinct by construction, generated ones by hash".into()
     }
     fn assumptions(&self) -> Vec<String> {
         vec!["the error's DecodeError payload is not demanded, only the message type Invalid".into()]
@@ -65,6 +65,12 @@ impl Prop for C17 {
         prop_oneof![
             8 => (any::<u8>(), prop_oneof![Just(0x0Fu8), any::<u8>()], any::<u8>(), prop_oneof![3 => gen::bytes_upto(40), 1 => gen::bytes_upto(600)], gen::ctx_cfg(), prop_oneof![2 => Just(Vec::new()).boxed(), 1 => gen::prior_history(3)])
                 .prop_map(|(b0, b1, b2, tail, cfg, hist)| Case::Tail { b0, b1, b2, tail, cfg, hist }),
+            2 => (gen::ref_valid_packet(), any::<u8>(), gen::ctx_cfg(), prop_oneof![2 => Just(Vec::new()).boxed(), 1 => gen::prior_history(3)]).prop_map(|(mut p, b1, cfg, hist)| {
+                // an otherwise complete, valid frame (correct PEC) with a foreign SMBus command code
+                p[1] = if b1 == 0x0F { 0x0E } else { b1 };
+                crate::refmodel::fix_pec(&mut p);
+                Case::Tail { b0: p[0], b1: p[1], b2: p[2], tail: p[3..].to_vec(), cfg, hist }
+            }),
             1 => (proptest::collection::vec(prop_oneof![Just(0x0Fu8), any::<u8>()], 0..=2), gen::ctx_cfg()).prop_map(|(bytes, cfg)| Case::Short { bytes, cfg }),
         ]
         .boxed()
